@@ -4966,7 +4966,7 @@ func (t *Terminal) Loop() error {
 			return false
 		}
 		scrollPreviewTo := func(newOffset int) {
-			if !t.previewer.scrollable {
+			if !t.previewer.scrollable || !t.hasPreviewWindow() {
 				return
 			}
 			numLines := len(t.previewer.lines)
@@ -5778,7 +5778,8 @@ func (t *Terminal) Loop() error {
 
 				// Preview scrollbar dragging
 				headerLines := t.activePreviewOpts.headerLines
-				pbarDragging = me.Down && (pbarDragging || click && t.hasPreviewWindow() && my >= t.pwindow.Top()+headerLines && my < t.pwindow.Top()+t.pwindow.Height() && mx == t.pwindow.Left()+t.pwindow.Width())
+				// The preview window may have been hidden while the button is held down
+				pbarDragging = me.Down && t.hasPreviewWindow() && (pbarDragging || click && my >= t.pwindow.Top()+headerLines && my < t.pwindow.Top()+t.pwindow.Height() && mx == t.pwindow.Left()+t.pwindow.Width())
 				if pbarDragging {
 					effectiveHeight := t.pwindow.Height() - headerLines
 					numLines := len(t.previewer.lines) - headerLines
